@@ -80,7 +80,7 @@ def run(ctx):
             if x.op == "owf":
                 out.append((x, ix))
                 continue
-            if x.op == "fold":
+            if x.op == "fold" or (x.op == "phi" and Q.is_loop_acc(x)):
                 continue
             if x.op == "phi":
                 stack.extend((y, ix) for y in (PHI.get(x.args[0]) or {}).values())
